@@ -202,6 +202,22 @@ class XmlSchema(InterfaceDocumentBase):
                     elements[name] = element
                     schema_root.append(element)
 
+            # header and fault classes are referenced by element name in wsdl
+            # message parts. their global element is missing when a customized
+            # variant of the same class (e.g. a bare return value, which is
+            # named after the method) was registered first.
+            for cls in chain(method.in_header or (), method.out_header or (),
+                                                          method.faults or ()):
+                name = cls.Attributes.sub_name or cls.get_type_name()
+                pref = cls.get_namespace_prefix(self.interface)
+                cls_elements = self.get_schema_info(pref).elements
+                if not name in cls_elements:
+                    element = etree.Element(ns.XSD('element'))
+                    element.set('name', name)
+                    element.set('type', cls.get_type_name_ns(self.interface))
+                    cls_elements[name] = element
+                    self.get_schema_node(pref).append(element)
+
     def build_validation_schema(self):
         """Build application schema specifically for xml validation purposes."""
 
